@@ -30,7 +30,9 @@ PROPS = {
             "text": "Eight theorems in coq/theories/Crypto*.v for all keys, all byte strings and all IVs: xor is its own inverse with the key repeated, unpad(pad p) = p, CBC decryption inverts CBC encryption for any block cipher with D(E b) = b, hence the AES provider round trip; ciphertext layout iv ++ body with |body| = 16(|p|/16+1); ciphertexts shorter than 32 bytes or not block-aligned are rejected; the recorded method is concrete. The model computes IV layout, padding and chaining itself and is compared byte for byte with encryption.py under a recorded os.urandom, with single-block AES results taken from cryptography's ECB primitive directly.",
             "note": "Trusted: Coq kernel + vm_compute; the correspondence harness; the AES-256 block primitive enters as a hypothesis (inverse law) and as a per-case table; 'a different key never yields the plaintext' is cryptographic and only sampled. No axioms.",
             "design_ref": "DESIGN.md section 6 C08"},
-        "streams": ["crypto", "securevalues"],
+        "streams": ["crypto", "securevalues", "keyfile"],
+        # of the key-file stream (C07) the C08 clause: across sessions and provider objects the cipher uses the session's key
+        "stream_filters": {"keyfile": r"cipher result was not computed with the key"},
         "witnesses": [],
         "rule": ("deterministic matrix (2 keys x 4 methods x 12 boundary plaintext lengths) plus seeded random cases: "
                  "encryptions under a recorded IV and decryptions of valid / short / misaligned / bad-padding / "
